@@ -47,7 +47,7 @@ ASSUMPTIONS = [
 ]
 REAL = ["BaseOrchestrator.set_invocation_result/exception", "DistributedInvocation.run/get_final_result/status cache", "Mem/SQLite state backends", "client data stores", "Json/Pickle/JsonPickle serializers", "ThreadRunner loop"]
 STUBBED = ["thread / process scheduling", "clock", "uuid4"]
-PROBES = ["raced_reader", "externalised_result", "inline_result", "failed_outcome", "success_outcome", "nonfinal_refused"]
+PROBES = ["raced_reader", "externalised_exception", "externalised_result", "inline_result", "failed_outcome", "success_outcome", "nonfinal_refused"]
 
 SERIALIZERS = ["JsonSerializer", "PickleSerializer", "JsonPickleSerializer"]
 MEM_TRACE = ["orchestrator/base_orchestrator.py", "orchestrator/mem_orchestrator.py", "invocation/dist_invocation.py", "state_backend/base_state_backend.py", "state_backend/mem_state_backend.py"]
@@ -84,7 +84,7 @@ def run(seed: int, params: dict, replay: dict | None = None) -> dict:
     for i in range(n_inv):
         tok = f"v{i}"
         if rng.random() < 0.3:
-            outcomes[tok] = values.exception(rng, dom)
+            outcomes[tok] = values.exception(rng, dom, size=rng.choice([None, None, threshold // 2, threshold * 2]))
         else:
             outcomes[tok] = values.value(rng, dom, depth=2, size=rng.choice([None, None, threshold // 2, threshold * 2]))
     expected = {k: copy.deepcopy(v) for k, v in outcomes.items()}
@@ -238,6 +238,15 @@ def run(seed: int, params: dict, replay: dict | None = None) -> dict:
                 raw = app.state_backend._get_result(inv_id) if not isinstance(expected[tok], BaseException) else None
             except Exception:  # noqa: BLE001
                 raw = None
+            if isinstance(expected[tok], BaseException):
+                try:
+                    import json as _json
+
+                    data = _json.loads(app.state_backend._get_exception(inv_id)).get("error_data", "")
+                    if isinstance(data, str) and app.client_data_store.is_reference(data):
+                        st["probe.externalised_exception"] = st.get("probe.externalised_exception", 0) + 1
+                except Exception:  # noqa: BLE001
+                    pass
             if raw is not None:
                 k = "probe.externalised_result" if app.client_data_store.is_reference(raw) else "probe.inline_result"
                 st[k] = st.get(k, 0) + 1
